@@ -75,6 +75,24 @@ func ruleEffectWrite(c *Ctx, r *Rep) {
 	if len(sites) == 0 {
 		r.Undecided("floor:mutating-calls", "", "no file-mutating call found at all")
 	}
+	// a write replaces the file: os.WriteFile and os.Create truncate; an OpenFile that can write must say O_TRUNC
+	// (a shorter new content must not leave the tail of the old one behind, e.g. an old key after the new one)
+	for _, fn := range sortedFuncs(c, keysOfFuncMap(sites)) {
+		for _, ci := range sites[fn] {
+			if calleeFullName(ci) != "os.OpenFile" {
+				continue
+			}
+			k, ok := ci.Common().Args[1].(*ssa.Const)
+			if !ok || k.Value == nil {
+				r.Undecided("shape:open-flags|"+c.FuncKey(fn), c.Pos(ci.Pos()), "the flags of os.OpenFile are not a constant")
+				continue
+			}
+			flags := k.Int64()
+			wr, rdwr, trunc, app := osConst(c, "O_WRONLY"), osConst(c, "O_RDWR"), osConst(c, "O_TRUNC"), osConst(c, "O_APPEND")
+			writes := flags&wr != 0 || flags&rdwr != 0
+			r.Check(!writes || (flags&trunc != 0 && flags&app == 0), "write-replaces-file|"+c.FuncKey(fn), c.Pos(ci.Pos()), "a file opened for writing is truncated (O_TRUNC, no O_APPEND)", sprintf("flags %#x", flags))
+		}
+	}
 	// who invokes Filesystem.WriteFile / DeleteFile
 	allowedWriters := map[string]string{
 		"filesystem.FsDb.exportPemFile": "writes the artifact file of the entity",
@@ -363,10 +381,46 @@ func ruleGuardConsent(c *Ctx, r *Rep) {
 				}
 			}
 		}
+		// the same two conditions computed by boolean helpers: flag(plannedList) false, or consent() true
+		helperFlagOK, helperFlagWhy := false, ""
+		var helperFlag *guard
+		for i := range facts {
+			g := facts[i]
+			call, ok := g.Cond.(*ssa.Call)
+			if !ok {
+				continue
+			}
+			f := call.Call.StaticCallee()
+			if f == nil || !c.InModule(f) || f.Blocks == nil || f.Signature.Results().Len() != 1 {
+				continue
+			}
+			if b, ok := f.Signature.Results().At(0).Type().Underlying().(*types.Basic); !ok || b.Kind() != types.Bool {
+				continue
+			}
+			bind := map[*ssa.Parameter][]string{}
+			for j, prm := range f.Params {
+				if j < len(call.Call.Args) {
+					bind[prm] = pv.Origins(call.Call.Args[j])
+				}
+			}
+			pv.binds = append(pv.binds, bind)
+			if g.Truth && consentHelper(c, pv, f, wantAnswer) {
+				answerYes, readOK = true, true
+				answerPos = call.Pos()
+			} else if !g.Truth {
+				if ok, why, is := overwriteFlagHelper(c, pv, f, planO[0]+"#0"); is {
+					helperFlag, helperFlagOK, helperFlagWhy = &facts[i], ok, why
+				}
+			}
+			pv.binds = pv.binds[:len(pv.binds)-1]
+		}
 		switch {
 		case answerYes || readOK:
 			nConsent++
 			r.Check(answerYes && readOK, "consent-edge", c.Pos(answerPos), "answer == \"y\" after TrimSpace and ToLower, read from os.Stdin without error", sprintf("answer is y: %v, read error excluded: %v", answerYes, readOK))
+		case helperFlag != nil:
+			nFlag++
+			r.Check(helperFlagOK, "no-overwrite-edge", c.Pos(helperFlag.If.Pos()), "taken only when no planned change has Change == ChangeReplace", helperFlagWhy)
 		case flagFact != nil:
 			cond := flagFact.Cond.(*ssa.Phi)
 			okFlag := true
@@ -411,6 +465,14 @@ func ruleGuardConsent(c *Ctx, r *Rep) {
 	for _, b := range cli.Blocks {
 		iff, ok := lastInstr(b).(*ssa.If)
 		if !ok {
+			continue
+		}
+		if call, isCall := iff.Cond.(*ssa.Call); isCall {
+			// the consent asked through a boolean helper: its false edge is the refusal
+			if f := call.Call.StaticCallee(); f != nil && c.InModule(f) && f.Blocks != nil && f.Signature.Results().Len() == 1 && consentHelper(c, pv, f, wantAnswer) {
+				reach := reachableFrom(b.Succs[1], nil)
+				r.Check(!reach[B], "refusal-exits", c.Pos(call.Pos()), "any other answer ends the process (os.Exit) without generating", sprintf("generation reachable: %v", reach[B]))
+			}
 			continue
 		}
 		bin, ok := iff.Cond.(*ssa.BinOp)
@@ -732,4 +794,111 @@ func ruleEffectDet(c *Ctx, r *Rep) {
 			r.Check(ok, "hash-of-stored-config|"+c.FuncKey(fn), c.Pos(ci.Pos()), "the hash written next to the certificate is that of the configuration stored for the alias (the merged one, after PutConfig)", strings.Join(o, ","))
 		}
 	}
+}
+
+// consentHelper: a boolean function that returns true only for the answer y read from os.Stdin without error.
+func consentHelper(c *Ctx, pv *prov, f *ssa.Function, wantAnswer string) bool {
+	sawYes := false
+	for _, ret := range returnsOf(f) {
+		for _, pe := range phiEdges(retResults(ret)[0], ret.Block()) {
+			switch x := pe.Val.(type) {
+			case *ssa.Const:
+				if constBool(x) {
+					return false // true without asking
+				}
+			case *ssa.BinOp:
+				k, isK := x.Y.(*ssa.Const)
+				if x.Op != token.EQL || !isK || k.Value == nil || k.Value.Kind() != constant.String || constant.StringVal(k.Value) != "y" {
+					return false
+				}
+				o := uniq(pv.origins(x.X, 0))
+				if len(o) != 1 || o[0] != wantAnswer {
+					return false
+				}
+				// only after a successful read
+				readOK := false
+				for _, g := range guardsOf(pe.From) {
+					bin, ok := g.Cond.(*ssa.BinOp)
+					if !ok {
+						continue
+					}
+					if kk, isKK := bin.Y.(*ssa.Const); isKK && kk.Value == nil {
+						eo := uniq(pv.origins(bin.X, 0))
+						if len(eo) == 1 && strings.HasSuffix(eo[0], "ReadString(bufio.NewReader(G(os.Stdin))|K(10))#1") && ((bin.Op == token.EQL && g.Truth) || (bin.Op == token.NEQ && !g.Truth)) {
+							readOK = true
+						}
+					}
+				}
+				if !readOK {
+					return false
+				}
+				sawYes = true
+			default:
+				return false
+			}
+		}
+	}
+	return sawYes
+}
+
+// overwriteFlagHelper: a boolean function over the planned list that returns a flag built from constants, set to true
+// only under `change.Change == ChangeReplace` for an element of that list. is reports whether f has that general shape
+// (returns a phi of constants); ok whether every true is under the condition.
+func overwriteFlagHelper(c *Ctx, pv *prov, f *ssa.Function, listOrigin string) (ok bool, why string, is bool) {
+	for _, ret := range returnsOf(f) {
+		phi, isPhi := retResults(ret)[0].(*ssa.Phi)
+		if !isPhi {
+			if k, isK := retResults(ret)[0].(*ssa.Const); isK && !constBool(k) {
+				continue
+			}
+			return false, "", false
+		}
+		is = true
+		ok = true
+		for i, e := range flattenPhi(phi) {
+			k, isK := e.val.(*ssa.Const)
+			if !isK {
+				return false, "flag is not built from constants", true
+			}
+			if !constBool(k) {
+				continue
+			}
+			under := false
+			for _, g := range append(guardsOf(e.from), edgeGuard(e.from, e.to)...) {
+				bin, isBin := g.Cond.(*ssa.BinOp)
+				if !isBin {
+					continue
+				}
+				kk, isKK := bin.Y.(*ssa.Const)
+				if !isKK || !c.isModNamed("ChangeType")(kk.Type()) {
+					continue
+				}
+				name := c.constName(kk.Type(), kk.Value)
+				o := uniq(pv.origins(bin.X, 0))
+				isReplace := (bin.Op == token.EQL && g.Truth) || (bin.Op == token.NEQ && !g.Truth)
+				if isReplace && strings.HasSuffix(name, "ChangeReplace") && len(o) == 1 && strings.HasPrefix(o[0], listOrigin) && strings.HasSuffix(o[0], ".Change") {
+					under = true
+				}
+			}
+			if !under {
+				ok, why = false, sprintf("flag set to true (edge %d) outside `change.Change == ChangeReplace` over the planned list", i)
+			}
+		}
+	}
+	return ok, why, is
+}
+
+// osConst: the value of an integer constant of package os on the analysed platform.
+func osConst(c *Ctx, name string) int64 {
+	for _, p := range c.Prog.AllPackages() {
+		if p.Pkg.Path() != "os" {
+			continue
+		}
+		if obj, ok := p.Pkg.Scope().Lookup(name).(*types.Const); ok {
+			if v, exact := constant.Int64Val(obj.Val()); exact {
+				return v
+			}
+		}
+	}
+	return 0
 }
